@@ -20,7 +20,7 @@ DB = "DB1"
 SC = "SC"
 
 SPEC = {
-    "runs": {"quick": 1200, "thorough": 40000},
+    "runs": {"quick": 900, "thorough": 40000},
     "wall": {"quick": 600, "thorough": 7200},
     "chunk": 10,
     "level": "exploration",
